@@ -88,6 +88,13 @@ class Model:
         quad = v[d - 1] * v[d - 1] * F(1, 3)
         if self.kind == 'scalar':
             out = {'output': lin + inter + quad + F(1, 4)}
+        elif self.kind == 'swap':
+            # the label set SWAPS with the input: 'A' always, then either 'B' or 'C' (never both)
+            out = {'A': lin + F(1, 2)}
+            if v[d - 1] > F(1):
+                out['C'] = quad + v[0]
+            else:
+                out['B'] = inter - quad + F(2)
         else:
             out = {'A': lin + F(1, 2), 'B': inter - quad + F(2)}
             if v[d - 1] > F(1):     # the label set depends on the input (last feature: it is the one
